@@ -58,6 +58,7 @@ type DualScenario struct {
 	K           int        `json:"K"`
 	Count       int        `json:"count"`
 	HostAddrs   []string   `json:"hostaddrs"`             // classes of the node's own addresses
+	NoRead      bool       `json:"noread,omitempty"`      // findprov: the caller reads nothing until it has cancelled (it cancels once every reply has been delivered)
 	Inbound     []DualRef  `json:"inbound,omitempty"`     // op "inbound": ADD_PROVIDER messages sent to both halves' servers, each from a new peer announcing itself with these address classes
 	Peers       []DualPeer `json:"peers"`                 // the scripted peers; all of them are in their half's routing table
 	TargetKnown []string   `json:"targetknown,omitempty"` // findpeer: address classes already in the peerstore
@@ -357,6 +358,8 @@ func runDualInBubble(t *testing.T, sc *DualScenario, ch sim.Chooser) []sim.Ev {
 		add("Sent", kv...)
 	}
 	ctx, cancel := context.WithCancel(context.Background())
+	startRead := make(chan struct{})
+	cancelledEarly := false
 	synctest.Wait()
 	base := sim.BubbleSet()
 	done := make(chan struct{})
@@ -382,7 +385,11 @@ func runDualInBubble(t *testing.T, sc *DualScenario, ch sim.Chooser) []sim.Ev {
 			fpAddrs = ai.Addrs
 			atReturn = dualClassSet(h.Peerstore().Addrs(target))
 		case "findprov":
-			for ai := range d.FindProvidersAsync(ctx, c, sc.Count) {
+			out := d.FindProvidersAsync(ctx, c, sc.Count)
+			if sc.NoRead {
+				<-startRead
+			}
+			for ai := range out {
 				for i, p := range provIDs {
 					if p == ai.ID {
 						mu.Lock()
@@ -440,6 +447,16 @@ func runDualInBubble(t *testing.T, sc *DualScenario, ch sim.Chooser) []sim.Ev {
 		case <-done:
 		default:
 			p := gate.Pending()
+			if len(p) == 0 && sc.NoRead && !cancelledEarly {
+				// every reply has been delivered, the caller has read nothing: it cancels, and only then looks at
+				// the channel (which has to be closed for it)
+				cancelledEarly = true
+				add("Cancel")
+				cancel()
+				synctest.Wait()
+				close(startRead)
+				continue
+			}
 			if len(p) == 0 {
 				// nothing to deliver: let timers run
 				select {
@@ -461,8 +478,12 @@ func runDualInBubble(t *testing.T, sc *DualScenario, ch sim.Chooser) []sim.Ev {
 		}
 		break
 	}
+	if sc.NoRead && !cancelledEarly {
+		cancelledEarly = true
+		close(startRead)
+	}
 	bgLeft := []string{}
-	if !hang {
+	if !hang && !sc.NoRead {
 		// The operation has returned while the caller's context lives on. Replies still outstanding arrive now
 		// (for instance the other half's providers after the count was reached); whatever the operation left in
 		// the background has to end by itself: three minutes of virtual time later nothing of it may be blocked.
@@ -553,6 +574,7 @@ func runDualInBubble(t *testing.T, sc *DualScenario, ch sim.Chooser) []sim.Ev {
 func genDualScenario(r *rand.Rand) *DualScenario {
 	ops := []string{"provide", "putvalue", "getvalue", "findpeer", "findprov", "findprov"}
 	sc := &DualScenario{Seed: r.Int63(), Op: ops[r.Intn(len(ops))], K: 1 + r.Intn(3), Count: r.Intn(4)}
+	sc.NoRead = sc.Op == "findprov" && r.Intn(3) == 0
 	for i := 0; i < 1+r.Intn(4); i++ {
 		sc.HostAddrs = append(sc.HostAddrs, dualClasses[r.Intn(len(dualClasses))])
 	}
